@@ -181,6 +181,12 @@ func ParseOne(reader *bufio.Reader) (*ChangelogEntry, error) {
 	if err != nil {
 		return nil, fmt.Errorf("Failed parsing When %q: %v", when, err)
 	}
+	/* time.Parse hands out time.Local when the written offset happens to
+	 * be the one of the zone the process runs in, and a zone made from the
+	 * offset otherwise: make it the latter always, so that an entry reads
+	 * the same (String(), Location(), ==) wherever it is parsed */
+	_, offset := changeLog.When.Zone()
+	changeLog.When = changeLog.When.In(time.FixedZone("", offset))
 
 	return &changeLog, nil
 }
